@@ -1283,6 +1283,11 @@ class FoldConstantsPass(ir.passes.InPlacePass):
         if any(x.const_value is None for x in node.inputs if x is not None):
             return None
 
+        # An attribute that refers to an attribute parameter of the enclosing function has no
+        # value here: evaluating the node would silently use the operator's default instead.
+        if any(attr.is_ref() for attr in node.attributes.values()):
+            return None
+
         should_fold = self.should_fold(node)
 
         if should_fold is False:
